@@ -19,6 +19,7 @@ func init() {
 			Assumptions: []string{"encoding/json decodes a struct and a map from the same bytes consistently and matches keys case-insensitively"},
 			Trusted:     []string{"go/packages", "go/types", "go/ssa", "encoding/json"},
 			RuleDoc: map[string]string{
+				"R9.state":  "no memory of earlier calls: on the call tree only frozen package-level variables are touched (known exceptions listed with reasons), and no package-level object is handed out",
 				"R1.tables": "required-key table vs JSON tags; version domains",
 				"R2.truth":  "32-row truth table of the version-1 checker equals the statement's formula; atoms used are the five attributes",
 				"R3.gate":   "Marshal / Unmarshal gate order, full required-key loop, identity of the returned value",
@@ -36,6 +37,7 @@ const keyidPkg = "keyid"
 var keyidAtoms = map[string]string{"IsHeadless": "headless", "IsHWKey": "hw", "IsFirefighter": "ff", "IsNonce": "nonce", "TouchPolicy": "touch"}
 
 func runC05(c *Ctx) {
+	stateRule(c, "R9.state", []*ssa.Function{c.w.Method("keyid", "KeyID", "Marshal"), c.w.Func("keyid", "Unmarshal")}, knownState)
 	w := c.w
 	p := w.Pkg(keyidPkg)
 	if p == nil {
